@@ -60,6 +60,20 @@ class IOSim:
                     self.ctx.probe("fault_while_another_handle_open")
             raise SimOSError(code, f"injected {kind} at {point}")
 
+    def _mid_read_fault(self):
+        """Index of the frame fetch that fails inside this read, or None."""
+        t = self.sched.current if self.sched is not None else None
+        if self.forced is not None:
+            if self.forced[0] == "read_mid":
+                k = self.counts.get("read_mid", 0)
+                self.counts["read_mid"] = k + 1
+                return self.forced[2] if k == self.forced[1] else None
+            return None
+        if self.armed and self.fault_eighths and t is not None \
+                and self.ctx.tape.chance(self.fault_eighths, 64, "io.fault.read_mid"):
+            return self.ctx.tape.draw(3, "io.fault.read_mid.frame")
+        return None
+
     def open(self, name, mode="rs", **kwargs):
         self._yield(("io", "open"))
         self._maybe_fault("open", name)
@@ -114,7 +128,37 @@ class FHProxy:
             if io.sched is not None and io.sched.switches != self.__dict__.get("_sw0", 0):
                 io.ctx.probe("context_switch_between_seek_and_read")
         io._maybe_fault("read", self._name)
-        return self._fh.read(*a, **kw)
+        j = io._mid_read_fault()
+        if j is None or not hasattr(self._fh, "_read_frame"):
+            return self._fh.read(*a, **kw)
+        # a disk error in the MIDDLE of the read: the j-th frame fetch of this read fails,
+        # after baseband has already advanced past the earlier frames
+        fh = self._fh
+        orig = fh._read_frame
+        n = [0]
+
+        def failing_read_frame(index):
+            k = n[0]
+            n[0] = k + 1
+            if k == j:
+                io.ctx.fault("io_read_mid_EIO")
+                if k > 0:
+                    io.ctx.probe("mid_read_fault_after_first_frame")
+                t = io.sched.current if io.sched is not None else None
+                if t is not None:
+                    t.faulted_call = t.current_call
+                    io.ctx.note(f"{t.name}: injected OSError(EIO) at frame fetch #{k} inside read of {self._name}")
+                raise SimOSError(errno.EIO, f"injected EIO at frame fetch {k}")
+            return orig(index)
+
+        fh._read_frame = failing_read_frame
+        try:
+            return fh.read(*a, **kw)
+        finally:
+            try:
+                del fh._read_frame
+            except AttributeError:
+                pass
 
     def close(self):
         io = self._io
